@@ -533,16 +533,66 @@ func (r *Registry) ensureSort(name string, from *Registry) {
 	}
 }
 
-// mapTypeID: a stable number per Go map type (by its printed underlying type)
+// mapTypeID: a stable number per Go map type. Instantiations of a generic type share their heap arrays
+// (heap keys use the origin type), so type arguments are erased; a map type that mentions a type parameter
+// gets no number at all (0): nothing is assumed about it.
 func (r *Registry) mapTypeID(mt *types.Map) int {
 	if r.mapTypes == nil {
 		r.mapTypes = map[string]int{}
 	}
-	k := types.TypeString(mt, nil)
+	k, ok := canonTypeString(mt)
+	if !ok {
+		return 0
+	}
 	if id, ok := r.mapTypes[k]; ok {
 		return id
 	}
 	id := len(r.mapTypes) + 1
 	r.mapTypes[k] = id
 	return id
+}
+
+// canonTypeString prints a type with the type arguments of generic named types erased; ok is false when the
+// type mentions a type parameter
+func canonTypeString(t types.Type) (string, bool) {
+	switch v := types.Unalias(t).(type) {
+	case *types.TypeParam:
+		return "", false
+	case *types.Named:
+		o := v.Origin().Obj()
+		if o.Pkg() == nil {
+			return o.Name(), true
+		}
+		return o.Pkg().Path() + "." + o.Name(), true
+	case *types.Pointer:
+		e, ok := canonTypeString(v.Elem())
+		return "*" + e, ok
+	case *types.Slice:
+		e, ok := canonTypeString(v.Elem())
+		return "[]" + e, ok
+	case *types.Array:
+		e, ok := canonTypeString(v.Elem())
+		return fmt.Sprintf("[%d]%s", v.Len(), e), ok
+	case *types.Map:
+		k, ok1 := canonTypeString(v.Key())
+		e, ok2 := canonTypeString(v.Elem())
+		return "map[" + k + "]" + e, ok1 && ok2
+	case *types.Chan:
+		e, ok := canonTypeString(v.Elem())
+		return "chan " + e, ok
+	case *types.Struct:
+		var parts []string
+		for i := 0; i < v.NumFields(); i++ {
+			e, ok := canonTypeString(v.Field(i).Type())
+			if !ok {
+				return "", false
+			}
+			parts = append(parts, v.Field(i).Name()+" "+e)
+		}
+		return "struct{" + strings.Join(parts, ";") + "}", true
+	}
+	if containsTypeParam(t) {
+		return "", false
+	}
+	return types.TypeString(t, nil), true
 }
